@@ -36,6 +36,10 @@
 (*             ssh reachability probe is refused (exit code # 0) resp.     *)
 (*             never answers (timeout, cancelled, no exit code); the probe *)
 (*             is only made when the pilot has backup nodes                *)
+(*   oldfiles  CCM: none | name_eq_age | name_ne_age : ~/.crayccm also     *)
+(*             holds node files of older jobs (other hosts); the current   *)
+(*             job's file is the newest one - its name sorts last, or not  *)
+(*             (job ids gained a digit: nodelist.99998 < nodelist.100002)  *)
 (*   backup, agents, service   backup nodes, sub-agents with target        *)
 (*             'node', presence of a ./services file                       *)
 (***************************************************************************)
@@ -86,6 +90,10 @@ Lines(in) ==
                       [] OTHER                 -> in.hosts
        IN PseudoLines(in.pseudo, in.pslots) \o
           (IF in.uneven THEN SubSeq(body, 1, Len(body) - 1) ELSE body)
+
+\* what an older job's node file in ~/.crayccm lists: hosts of another allocation
+OldHosts     == <<81, 82>>
+OldLines(in) == Adjacent(OldHosts, SlotsPerHost(in))
 
 Count(h, s) == Cardinality({i \in 1 .. Len(s) : s[i] = h})
 
